@@ -117,6 +117,11 @@ def cases(tier, seed):
                     "kernel": spec, "d": rnd.choice([1, 2, 3]), "n1": npat[0], "n2": npat[1], "rel": npat[2], "pbatch": pb, "xbatch": xb,
                     "path": rnd.choice(PATHS), "regime": "faraway", "offset": rnd.choice([1e3, 3e4, 1e5]), "seed": rnd.randrange(10**6),
                 }
+    for rep in range(2 if tier == "quick" else 20):
+        for spec in ({"k": "rq"}, {"k": "rq", "ard": True}, {"k": "scale", "base": {"k": "rq"}}, {"k": "poly", "power": 3}, {"k": "periodic"}):
+            pb, xb = rnd.choice(BATCH[:4])
+            yield {"kernel": spec, "d": rnd.choice([1, 2, 3]), "n1": 5, "n2": 4, "rel": rnd.choice(["diff", "same"]), "pbatch": pb, "xbatch": xb, "path": rnd.choice(PATHS), "regime": "random",
+                   "extreme": True, "seed": rnd.randrange(10**6)}
     # one-hot sequences longer than 256 symbols stored in narrow dtypes (uint8 / bool / int8): distances beyond the dtype's range
     for rep in range(1 if tier == "quick" else 6):
         for dt_ in ("uint8", "bool", "int8", "int64", "float32"):
@@ -310,6 +315,17 @@ def _run_case(case, ctx):
             for n_, p in kern.named_parameters():
                 if "angle" not in n_:
                     p.add_(shift)
+    if case.get("extreme"):
+        # one shape parameter far outside its usual range (the formula is the same one): RQ alpha 1e3 .. 1e6 per batch element,
+        # polynomial offset 1e-6, periodic period 1e3 lengthscales
+        with torch.no_grad():
+            for mod in kern.modules():
+                if type(mod).__name__ == "RQKernel":
+                    mod.alpha = 10.0 ** (3 + 3 * util.rand(g, *mod.alpha.shape))
+                if type(mod).__name__ == "PolynomialKernel":
+                    mod.offset = torch.full_like(mod.offset, 1e-6)
+                if type(mod).__name__ == "PeriodicKernel":
+                    mod.period_length = torch.full_like(mod.period_length, 1e3)
     n1, n2, xb = case["n1"], case["n2"], case["xbatch"]
     if spec["k"] == "hamming":
         c1 = torch.randint(0, 4, (*xb, n1, d), generator=g)
